@@ -4,6 +4,8 @@ MANIFEST = dict(
     category="other",
     text="Decided on the real bodies for bounded sizes: the ROC curve of every label pattern and every score order (scores symbolic, no ties) "
          "starts at (0,0), has one point per object in descending score order with coordinates count/total, is monotone and ends at (1,1), the precision-recall curve starts at (0,1), has non-decreasing recall ending at 1 with each point = (tp/positives, tp/(tp+fp)); "
+         "R2, MSE, RMSE, MAE and BIAS equal their formulas on exact instances (integer truths/predictions 0..3, 2 or 4 elements, total sum of squares a power of two: every intermediate is exactly representable, so the "
+         "obligation is independent of the evaluation order; sqrt uninterpreted), with errors 0 and R2 = 1 for perfect prediction; "
          "the 'missing-coded truths are ignored' obligation for R2/MSE/MAE/BIAS (value equals the function on the vectors without that element) is only attempted in the thorough tier: no back end finished it within 15 minutes; the PLS "
          "statistic tables are R2/RMSE/BIAS applied per response and latent variable to the right columns with missing-coded rows removed.",
     note="Bounded: 2..3 objects for ROC (all patterns/orders enumerated), 3 elements for the missing-value obligation, 2..3 rows for the tables. "
@@ -11,7 +13,7 @@ MANIFEST = dict(
          "numerical/order-statistical identities over accumulated sums and are not decided; the area routine is an oracle.",
     technique="CBMC on the real ROC / R2 / MSE / MAE / BIAS / PLSRegressionStatistics bodies; enumerated label patterns and orders; oracle statistics for table wiring")
 
-META = dict(decided="ROC point sequence, endpoints and monotonicity; PLS statistic table wiring incl. removal of missing-coded rows",
+META = dict(decided="R2/MSE/RMSE/MAE/BIAS == formulas on exact instances; ROC point sequence, endpoints and monotonicity; PLS statistic table wiring incl. removal of missing-coded rows",
             not_decided="missing-coded truths ignored inside R2/MSE/MAE/BIAS (attempted, solver timeout); AUC = Mann-Whitney, monotone-map invariance, complement rule, MAE <= RMSE, R2 <= 1, RMSE^2 = MSE, precision-recall area",
             trusted_base=["oracle area / statistics in harness/C15/stats.c"], assumptions=["scores without ties"])
 
@@ -36,11 +38,11 @@ def jobs(tier):
             J.append(Job("missing_ignored@%s,k=%d" % (nm, k), "C15/stats.c", entry="h_missing_ignored", srcs=S + ["statistic.c"], kind="bounded",
                          defines={"VC_UNIT_MISSING": None, "VC_N": 3, "VC_K": k, "VC_WHICH": which}, unwind=6, functions=[nm], timeout=1200, tier="thorough", advisory=True, bound="3 elements, missing code at position %d; values symbolic in (-1e3,1e3)" % k,
                          clause="%s ignores a missing-coded truth (equal to the value on the vectors without it)" % nm))
-    for n in ((2, 3) if tier == "quick" else (2, 3, 4, 5)):
-        J.append(Job("regression_formulas@n=%d" % n, "C15/stats.c", entry="h_regression_formulas", srcs=S + ["statistic.c"], mode="ring", kind="bounded",
+    for n in ((2,) if tier == "quick" else (2, 4)):   # 2 or 4 elements: exact instances (4: ~10 min)
+        J.append(Job("regression_formulas@n=%d" % n, "C15/stats.c", entry="h_regression_formulas", srcs=S + ["statistic.c"], mode="ieee", kind="bounded",
                      defines={"VC_UNIT_FORMULAS": None, "VC_N": n}, unwind=n + 4, functions=["R2", "MSE", "RMSE", "MAE", "BIAS"], stubs=["stubs/usqrt_stub.c"], timeout=900,
-                     bound="%d elements; cells symbolic in 0..3 (ring mode without wrap-around)" % n,
-                     clause="R2, MSE, RMSE, MAE, BIAS == their formulas (which elements, argument order, counts, denominators; sqrt uninterpreted; rounding not decided); perfect prediction gives 0 errors and R2 = 1"))
+                     bound="%d elements; cells symbolic in {0,1,2,3}, total sum of squares a power of two (IEEE, exact instances)" % n,
+                     clause="R2, MSE, RMSE, MAE, BIAS == their formulas (which elements, argument order, counts, denominators; sqrt uninterpreted; exact instances, so independent of the evaluation order; rounding on general data not decided); perfect prediction gives 0 errors and R2 = 1"))
     for (n, ny, nlv) in ([(2, 2, 2), (3, 1, 2)] if tier == "quick" else [(2, 2, 2), (3, 1, 2), (3, 2, 1), (3, 2, 2)]):
         J.append(Job("PLSRegressionStatistics@n=%d,ny=%d,nlv=%d" % (n, ny, nlv), "C15/stats.c", entry="h_PLSRegressionStatistics",
                      srcs=["matrix.c", "vector.c", "memwrapper.c", "numeric.c", "tensor.c", "list.c", "statistic.c", "preprocessing.c", "pca.c"], kind="bounded",
